@@ -6,7 +6,7 @@
    one the AIR was written for (predicate [Known]) panics in the AIR's constructor. *)
 From VBase Require Import MachInt.
 From VModel Require Import Codec Untrusted.
-From VProofs Require Import CodecTypes CodecTotal UntrustedParse UntrustedTyped UntrustedVerify UntrustedAlloc UntrustedRefuted UntrustedBulk.
+From VProofs Require Import CodecTypes CodecTotal UntrustedParse UntrustedTyped UntrustedVerify UntrustedAlloc UntrustedRefuted UntrustedBulk UntrustedCanon.
 Open Scope Z_scope.
 
 (* ================================================================================== stage 1: Proof::from_bytes *)
@@ -128,6 +128,50 @@ Theorem C06_num_fri_layers_fuel : forall extra lde ff rmd bf, 0 <= lde < 2 ^ 64 
   nfl_loop (64 + extra) lde ff ((rmd + 1) * bf) = num_fri_layers lde ff rmd bf.
 Proof. exact num_fri_layers_fuel. Qed.
 Print Assumptions C06_num_fri_layers_fuel.
+
+(* ---------------------------------------------------------- canonical field elements (coverage round, 2026-09-26) *)
+(* The element reader of every typed parser rejects EXACTLY the non-canonical words.  [word_ok k w]: w is a k-byte
+   word; [elem_ok F deg ws]: deg words of the base field's width; [canonical M w := w <? M].  Whatever bytes follow. *)
+Theorem C06_read_elem_rejects_exactly_noncanonical : forall F deg ws rest, elem_ok F deg ws ->
+  read_elem F deg (write_elem F ws ++ rest) = if forallb (canonical (fp_mod F)) ws then Ok (ws, rest) else Err Invalid.
+Proof. exact read_elem_exact. Qed.
+Print Assumptions C06_read_elem_rejects_exactly_noncanonical.
+
+(* ... hence a component of n elements (OOD trace states / evaluations / Lagrange kernel states, opened trace and
+   constraint rows, FRI remainder) is read exactly when every base-field word of every element is canonical *)
+Theorem C06_read_elems_rejects_exactly_noncanonical : forall F deg es rest, Forall (elem_ok F deg) es ->
+  read_many (read_elem F deg) (Z.of_nat (length es)) (write_elems F es ++ rest) =
+  if elems_canonical F es then Ok (es, rest) else Err Invalid.
+Proof. exact read_elems_exact. Qed.
+Print Assumptions C06_read_elems_rejects_exactly_noncanonical.
+
+(* ... and so are the rows of a FRI layer (folding_factor elements per row) *)
+Theorem C06_read_rows_rejects_exactly_noncanonical : forall F deg ff rows rest, Forall (row_ok F deg ff) rows ->
+  read_many (read_many (read_elem F deg) (Z.of_nat ff)) (Z.of_nat (length rows)) (write_rows F rows ++ rest) =
+  if rows_canonical F rows then Ok (rows, rest) else Err Invalid.
+Proof. exact read_rows_exact. Qed.
+Print Assumptions C06_read_rows_rejects_exactly_noncanonical.
+
+(* at the level of a typed parser: FriProof::parse_remainder on a remainder of 2^k elements *)
+Theorem C06_Fri_parse_remainder_canonical_exact : forall F deg ls np es,
+  0 < elem_bytes F deg -> Forall (elem_ok F deg) es -> is_pow2 (Z.of_nat (length es)) = true ->
+  Fri_parse_remainder F deg (mkFri ls (write_elems F es) np) =
+  if elems_canonical F es then Ok (Z.of_nat (length es)) else Err Invalid.
+Proof. exact Fri_parse_remainder_exact. Qed.
+Print Assumptions C06_Fri_parse_remainder_canonical_exact.
+
+(* both branches are inhabited; the four value kinds of the generators (modulus, modulus + 1, all ones, modulus + v) *)
+Example C06_noncanonical_value_kinds :
+  (Fri_parse_remainder F64P 1 (mkFri [] (write_elems F64P [[5]; [7]]) 0) = Ok 2) /\
+  (Fri_parse_remainder F64P 1 (mkFri [] (write_elems F64P [[5]; [M64 - 1]]) 0) = Ok 2) /\
+  (Fri_parse_remainder F64P 1 (mkFri [] (write_elems F64P [[5]; [M64]]) 0) = Err Invalid) /\
+  (Fri_parse_remainder F64P 1 (mkFri [] (write_elems F64P [[5]; [M64 + 1]]) 0) = Err Invalid) /\
+  (Fri_parse_remainder F64P 1 (mkFri [] (write_elems F64P [[5]; [2 ^ 64 - 1]]) 0) = Err Invalid) /\
+  (Fri_parse_remainder F64P 1 (mkFri [] (write_elems F64P [[5]; [M64 + 7]]) 0) = Err Invalid) /\
+  (Fri_parse_remainder F128P 2 (mkFri [] (write_elems F128P [[1; M128]]) 0) = Err Invalid) /\
+  (Fri_parse_remainder F62P 3 (mkFri [] (write_elems F62P [[1; 2; M62 + 2]]) 0) = Err Invalid) /\
+  (Fri_parse_remainder F62P 3 (mkFri [] (write_elems F62P [[1; 2; M62 - 1]]) 0) = Ok 1).
+Proof. exact remainder_value_kinds. Qed.
 
 (* ============================================================================================ stage 3: verify() *)
 (* [wfAir]: a supported base field (element size >= 2, modulus halves convertible, 256^(ELEMENT_BYTES-1) <= modulus,
